@@ -68,7 +68,7 @@ func runC17(c *Ctx) {
 			}
 			for i := 0; i < st.NumFields(); i++ {
 				if _, isChan := st.Field(i).Type().Underlying().(*types.Chan); isChan {
-					table = append(table, bareOp{c.nm(hq), "send", "field:" + named.Obj().Name() + "." + st.Field(i).Name(), 1 << 20, "rendezvous-reply", "reply of a query case; exactly one per path (C17.X1)"})
+					table = append(table, bareOp{c.nm(hq), "send", "field:" + c.on(named.Obj()) + "." + c.on(st.Field(i)), 1 << 20, "rendezvous-reply", "reply of a query case; exactly one per path (C17.X1)"})
 				}
 			}
 		})
@@ -98,7 +98,7 @@ func runC17(c *Ctx) {
 								return
 							}
 							fa, ok := st.Addr.(*ssa.FieldAddr)
-							if !ok || fieldKey(fa.X.Type(), ir.FieldOfAddr(fa)) != key {
+							if !ok || c.fieldKey(fa.X.Type(), ir.FieldOfAddr(fa)) != key {
 								return
 							}
 							ir.DerivesFrom(st.Val, func(x ssa.Value) bool {
@@ -110,7 +110,7 @@ func runC17(c *Ctx) {
 										okv = false
 									}
 								case *ssa.FieldAddr:
-									visit(fieldKey(y.X.Type(), ir.FieldOfAddr(y)), depth+1)
+									visit(c.fieldKey(y.X.Type(), ir.FieldOfAddr(y)), depth+1)
 								}
 								return false
 							})
@@ -165,7 +165,7 @@ func runC17(c *Ctx) {
 				return
 			}
 			n++
-			key := "field:" + named.Obj().Name() + "." + reply.Name()
+			key := "field:" + c.on(named.Obj()) + "." + c.on(reply)
 			send := func(x ssa.Instruction) bool {
 				s, ok := x.(*ssa.Send)
 				return ok && c.chanKey(s.Chan) == key
@@ -624,15 +624,23 @@ func (c *Ctx) wgKey(in ssa.Instruction) (string, string, bool) {
 	return c.addrKey(cc.Args[0]), fn.Name(), true
 }
 
+// fnBase: a function's bare name in baseline spelling.
+func (c *Ctx) fnBase(fn *ssa.Function) string {
+	if o := fn.Object(); o != nil {
+		return c.on(o)
+	}
+	return fn.Name()
+}
+
 // addrKey names the variable an address denotes.
 func (c *Ctx) addrKey(v ssa.Value) string {
 	switch a := ir.Strip(v).(type) {
 	case *ssa.FieldAddr:
-		return fieldKey(a.X.Type(), ir.FieldOfAddr(a))
+		return c.fieldKey(a.X.Type(), ir.FieldOfAddr(a))
 	case *ssa.Alloc:
-		return "var:" + outermost(a.Parent()).Name() + "." + a.Comment
+		return "var:" + c.fnBase(outermost(a.Parent())) + "." + a.Comment
 	case *ssa.FreeVar:
-		return "var:" + outermost(a.Parent()).Name() + "." + a.Name()
+		return "var:" + c.fnBase(outermost(a.Parent())) + "." + a.Name()
 	}
 	return "?"
 }
